@@ -7,6 +7,7 @@ CONSTANTS
   AllowMixed = TRUE
   NCorrupt = 0
   Subst0 = {48, 49, 56, 70, 71, 58, 83}
+  WithRelocs = FALSE
   Lens = {0, 1, 3}
 INIT Init
 NEXT Next
